@@ -2,6 +2,8 @@
 # usage: try_seed.sh <patch.diff> <Cxx> [more props...]
 # Applies a seeded regression to /repo, runs the named checks, and undoes it.
 patch="$1"; shift
+export LUAVERIF_EVIDENCE=$(mktemp -d /tmp/luaverif-ev-XXXXXX)   # keep /verif/evidence for runs on the committed tree
+trap 'rm -rf "$LUAVERIF_EVIDENCE"' EXIT
 cd /repo || exit 2
 if [ -n "$(git status --porcelain)" ]; then echo "repo not clean"; exit 2; fi
 git apply "$patch" || { echo "PATCH DOES NOT APPLY"; exit 3; }
